@@ -6,6 +6,7 @@ import (
 	"net/http"
 	"net/url"
 	"sort"
+	"strconv"
 	"strings"
 
 	"github.com/php-any/origami/data"
@@ -28,6 +29,21 @@ type SimConn struct {
 	Strict      bool // like net/http: refuse a body for 1xx/204/304
 	Failed      int  // how many writes were failed
 	Stall       bool // slow client: every Write is a scheduling point (the server task parks in it)
+	written     int64
+}
+
+// declaredLength is the Content-Length that went out with the header block (-1: none), as net/http
+// reads it at the commit: body bytes beyond it are refused with http.ErrContentLength
+func (c *SimConn) declaredLength() int64 {
+	v := c.SentHeader().Get("Content-Length")
+	if v == "" {
+		return -1
+	}
+	n, err := strconv.ParseInt(v, 10, 64)
+	if err != nil || n < 0 {
+		return -1
+	}
+	return n
 }
 
 type Commit struct {
@@ -68,6 +84,11 @@ func (c *SimConn) Write(p []byte) (int, error) {
 			return 0, nil
 		}
 	}
+	if dl := c.declaredLength(); dl >= 0 && c.written+int64(len(p)) > dl {
+		c.Failed++
+		return 0, http.ErrContentLength
+	}
+	c.written += int64(len(p))
 	c.Body.Write(p)
 	return len(p), nil
 }
